@@ -315,6 +315,26 @@ pub struct World {
     pub local: PeerId,
     pub limits: (Option<usize>, Option<usize>),
     pub mgr_terminated: bool,
+    /// `OpenSubstream` commands received by scripted connections and not yet answered
+    pub open_cmds: Vec<OpenCmd>,
+    /// connections closed because every protocol released them (keep-alive) or ForceClose: (cid, virtual instant, reason)
+    pub auto_closed: Vec<(Cid, tokio::time::Instant, &'static str)>,
+    /// substream ids handed out by `open_substream`: (service index, peer, id)
+    pub opened_ids: Vec<(usize, PeerId, usize)>,
+}
+
+pub struct OpenCmd {
+    pub cid: Cid,
+    pub protocol: ProtocolName,
+    pub substream_id: SubstreamId,
+    pub permit: litep2p::verif::protocol::Permit,
+    pub keep_alive: SubstreamKeepAlive,
+    pub step: u64,
+}
+
+pub fn substream_num(s: &SubstreamId) -> usize {
+    let t = format!("{s:?}");
+    t.trim_start_matches("SubstreamId(").trim_end_matches(')').parse().unwrap_or(usize::MAX)
 }
 
 impl World {
@@ -354,6 +374,9 @@ impl World {
             local,
             limits,
             mgr_terminated: false,
+            open_cmds: Vec::new(),
+            auto_closed: Vec::new(),
+            opened_ids: Vec::new(),
         }
     }
 
@@ -424,19 +447,42 @@ impl World {
                     }
                 }
             }
-            // commands from protocols to live connections
+            // commands from protocols to live connections (mirror of TcpConnection::start():
+            // `None` = every protocol released the connection, ForceClose = close now)
             {
                 let mut sh = self.shared.lock();
                 let mut got = Vec::new();
+                let mut to_close: Vec<(Cid, &'static str)> = Vec::new();
                 for c in sh.live.iter_mut() {
-                    while let Poll::Ready(Some(cmd)) = poll_once(c.set.next()) {
-                        got.push((c.cid, cmd));
+                    loop {
+                        match poll_once(c.set.next()) {
+                            Poll::Ready(Some(cmd)) => got.push((c.cid, cmd)),
+                            Poll::Ready(None) => {
+                                to_close.push((c.cid, "released"));
+                                break;
+                            }
+                            Poll::Pending => break,
+                        }
                     }
                 }
                 drop(sh);
                 for (cid, cmd) in got {
                     progressed = true;
-                    self.commands.push((step, cid, cmd));
+                    match cmd {
+                        ProtocolCommand::OpenSubstream { protocol, substream_id, permit, keep_alive, .. } => {
+                            self.open_cmds.push(OpenCmd { cid, protocol, substream_id, permit, keep_alive, step });
+                        }
+                        ProtocolCommand::ForceClose => {
+                            if !to_close.iter().any(|(c, _)| *c == cid) {
+                                to_close.push((cid, "force-close"));
+                            }
+                        }
+                    }
+                }
+                for (cid, why) in to_close {
+                    progressed = true;
+                    self.auto_closed.push((cid, tokio::time::Instant::now(), why));
+                    self.close_now(cid);
                 }
             }
             if !progressed {
@@ -619,6 +665,15 @@ impl World {
     /// `ProtocolSet::report_connection_closed`).
     pub fn close(&mut self, cid: Cid) -> bool {
         self.next_step();
+        let r = self.close_now(cid);
+        self.pump();
+        r
+    }
+
+    /// Close without pumping (used from inside `pump`).
+    fn close_now(&mut self, cid: Cid) -> bool {
+        // pending substream opens of that connection die with it (their permits are dropped)
+        self.open_cmds.retain(|c| c.cid != cid);
         let conn = {
             let mut s = self.shared.lock();
             let Some(p) = s.live.iter().position(|c| c.cid == cid) else { return false };
@@ -627,8 +682,90 @@ impl World {
         let LiveConn { cid, peer, mut set, .. } = conn;
         let _ = poll_once(set.verif_report_connection_closed(peer, cid));
         drop(set);
+        true
+    }
+
+    // ---- protocol side ------------------------------------------------------------------------
+
+    pub fn open_substream(&mut self, svc: usize, peer: PeerId) -> Result<usize, String> {
+        self.next_step();
+        let r = match self.services[svc].1.as_mut() {
+            Some(s) => s.open_substream(peer).map(|id| substream_num(&id)).map_err(|e| format!("{e:?}")),
+            None => Err("service dropped".into()),
+        };
+        if let Ok(id) = &r {
+            self.opened_ids.push((svc, peer, *id));
+        }
+        self.pump();
+        r
+    }
+
+    pub fn force_close(&mut self, svc: usize, peer: PeerId) -> Result<(), String> {
+        self.next_step();
+        let r = match self.services[svc].1.as_mut() {
+            Some(s) => s.force_close(peer).map_err(|e| format!("{e:?}")),
+            None => Err("service dropped".into()),
+        };
+        self.pump();
+        r
+    }
+
+    /// The connection answers the n-th pending `OpenSubstream` command: opened (with a yamux
+    /// stream) or failed.
+    pub fn answer_open(&mut self, n: usize, stream: Option<litep2p::yamux::Stream>) -> Option<(Cid, usize)> {
+        self.next_step();
+        if n >= self.open_cmds.len() {
+            return None;
+        }
+        let cmd = self.open_cmds.remove(n);
+        let id = substream_num(&cmd.substream_id);
+        let mut sh = self.shared.lock();
+        let Some(conn) = sh.live.iter_mut().find(|c| c.cid == cmd.cid) else { return None };
+        let peer = conn.peer;
+        match stream {
+            Some(stream) => {
+                let codec = conn.set.protocol_codec(&cmd.protocol);
+                // tcp/connection.rs: lifetime_permit = keep_alive.then(|| opening_permit.clone())
+                let lifetime = matches!(cmd.keep_alive, SubstreamKeepAlive::Yes).then(|| cmd.permit.clone());
+                let sub = litep2p::verif::substream_over_yamux(peer, id, stream, codec, lifetime);
+                let _ = poll_once(conn.set.report_substream_open(peer, cmd.protocol.clone(), Direction::Outbound(cmd.substream_id), sub, cmd.permit));
+            }
+            None => {
+                let err = litep2p::error::SubstreamError::NegotiationError(litep2p::error::NegotiationError::Timeout);
+                let _ = poll_once(conn.set.report_substream_open_failure(cmd.protocol.clone(), cmd.substream_id, err));
+                drop(cmd.permit);
+            }
+        }
+        let cid = cmd.cid;
+        drop(sh);
+        self.pump();
+        Some((cid, id))
+    }
+
+    /// The remote opens a substream of protocol `svc` on connection `cid`.
+    pub fn inbound_substream(&mut self, cid: Cid, svc: usize, stream: litep2p::yamux::Stream) -> bool {
+        self.next_step();
+        let name = self.services[svc].0.clone();
+        {
+            let mut sh = self.shared.lock();
+            let Some(conn) = sh.live.iter_mut().find(|c| c.cid == cid) else { return false };
+            let peer = conn.peer;
+            let Some(permit) = conn.set.try_get_permit() else { return false };
+            let keep = conn.set.protocols_with_keep_alives().get(&name).cloned().unwrap_or(SubstreamKeepAlive::Yes);
+            let codec = conn.set.protocol_codec(&name);
+            let lifetime = matches!(keep, SubstreamKeepAlive::Yes).then(|| permit.clone());
+            let sub = litep2p::verif::substream_over_yamux(peer, 0, stream, codec, lifetime);
+            let _ = poll_once(conn.set.report_substream_open(peer, name, Direction::Inbound, sub, permit));
+        }
         self.pump();
         true
+    }
+
+    /// Advance virtual time (the runtime must have been started paused) and let timers fire.
+    pub fn advance(&mut self, rt: &tokio::runtime::Runtime, d: Duration) {
+        self.next_step();
+        rt.block_on(tokio::time::advance(d));
+        self.pump();
     }
 
     /// Drop a protocol's `TransportService` (the user dropped the protocol handle / protocol exited).
